@@ -311,6 +311,49 @@ class CG:
             return True  # CaseStyleMapping({Constant: "upper"})
         if isinstance(p, ast.ClassDef):
             return True
+        # a class handed to a helper whose parameter is only ever a test operand:
+        # self._resolve(p, expected=Type)  with  `isinstance(d, expected)` in the helper
+        kw = p if isinstance(p, ast.keyword) else None
+        call = parent(p) if kw is not None else p
+        if isinstance(call, ast.Call) and isinstance(call.func, (ast.Attribute, ast.Name)) and not isinstance(getattr(call.func, "value", None), ast.Constant):
+            cname = call.func.attr if isinstance(call.func, ast.Attribute) else call.func.id
+            cands = [fi.node for c in self.model.all_classes() for nm, fi in c.methods.items() if nm == cname] if isinstance(call.func, ast.Attribute) else [fi.node for mod in self.model.mods.values() for nm, fi in mod.funcs.items() if nm == cname]
+            if cands:
+                ok_all = True
+                for h in cands:
+                    params = [a.arg for a in h.args.args]
+                    if isinstance(call.func, ast.Attribute) and params and params[0] in ("self", "cls"):
+                        params = params[1:]
+                    if kw is not None:
+                        pname = kw.arg
+                    else:
+                        idx = call.args.index(child) if child in call.args else -1
+                        pname = params[idx] if 0 <= idx < len(params) else None
+                    if pname is None or pname not in [a.arg for a in h.args.args] + [a.arg for a in h.args.kwonlyargs]:
+                        ok_all = False
+                        break
+                    uses = [x for x in ast.walk(h) if isinstance(x, ast.Name) and x.id == pname and isinstance(x.ctx, ast.Load)]
+                    stores = [x for x in ast.walk(h) if isinstance(x, ast.Name) and x.id == pname and isinstance(x.ctx, ast.Store)]
+                    if stores or not uses:
+                        ok_all = False
+                        break
+                    for x in uses:
+                        px = parent(x)
+                        cx: ast.AST = x
+                        while isinstance(px, ast.Tuple):
+                            cx, px = px, parent(px)
+                        if isinstance(px, ast.Call) and isinstance(px.func, ast.Name) and px.func.id in ("isinstance", "issubclass") and len(px.args) == 2 and px.args[1] is cx:
+                            continue
+                        if isinstance(px, ast.Call) and isinstance(px.func, ast.Name) and px.func.id in ("cast", "cast_or_raise") and px.args and px.args[0] is cx:
+                            continue
+                        if isinstance(px, ast.Compare):
+                            continue
+                        ok_all = False
+                        break
+                    if not ok_all:
+                        break
+                if ok_all:
+                    return True
         return False
 
     # -------------------------------------------------------------- calls
